@@ -343,6 +343,14 @@ def dispatch(it, body, st, t, fn, args, depth):
             raise Unsupported("operator %s" % base)
         if big:
             val = BIGVAL(r)
+            # a value whose sign is evident (all symbols are magnitudes, all coefficients of one sign) gets the canonical struct form
+            if base in ("add", "sub", "mul") and not r.t:
+                val = BIGINT(SIGN(0), Poly())
+            elif base in ("add", "sub", "mul") and not any(s_.startswith("egcd") or (s_.startswith("I") and s_ not in st.signed_split) for s_ in r.symbols()):
+                if all(c > 0 for c in r.t.values()):
+                    val = bigint_from_value_sign(st, 1, r)
+                elif all(c < 0 for c in r.t.values()):
+                    val = bigint_from_value_sign(st, -1, -r)
         elif ka == "int" and kb == "int":
             val = INT(r, va[2])
         else:
@@ -503,6 +511,15 @@ def dispatch(it, body, st, t, fn, args, depth):
             if p.single_symbol():
                 st.nz.add(p.single_symbol())
             return ret(st, ENUM("core::option::Option", "None", []))
+    # ---- extended_gcd on BigInt (num-integer's generic default method): fresh symbols g >= 0, x, y with P*x + Q*y = g
+    if name == "extended_gcd" and len(args) == 2:
+        vs = [it.deref_all(st, a) for a in args]
+        if all(is_bigint(v) for v in vs):
+            P, Q = int_value(vs[0]), int_value(vs[1])
+            k = len(st.egcds)
+            g, x, y = Poly.sym("egcd%d_g(%r,%r)" % (k, P, Q)), Poly.sym("egcd%d_x(%r,%r)" % (k, P, Q)), Poly.sym("egcd%d_y(%r,%r)" % (k, P, Q))
+            st.egcds.append((P, Q, g, x, y))
+            return ret(st, STRUCT("num_integer::ExtendedGcd", {"gcd": bigint_from_value_sign(st, 1, g), "x": BIGVAL(x), "y": BIGVAL(y)}))
     # ---- opaque magnitude functions (uninterpreted symbols)
     if name in ("pow", "sqrt", "cbrt", "nth_root", "gcd", "lcm", "modpow", "modinv", "bits", "trailing_zeros") and args:
         vs = [it.deref_all(st, a) for a in args]
